@@ -148,6 +148,7 @@ func (s *Sim) opTick(op *Op) {
 		if t.DiscAt+exp < m.Now {
 			t.Abandoned = true
 			t.Subs = map[string]*MSub{}
+			t.noteStale()
 			t.Out = nil
 			m.count("sessions_expired_by_tick")
 		}
@@ -157,7 +158,9 @@ func (s *Sim) opTick(op *Op) {
 		t := m.Sessions[id]
 		keep := t.Out[:0]
 		for _, o := range t.Out {
-			if o.M.ExpAt > 0 && m.Now > o.M.ExpAt {
+			if o.M.ExpAt > 0 && m.Now > o.M.ExpAt && !o.Pubrec {
+				// (a message the client has answered with PUBREC has been delivered: what is left is the PUBREL/PUBCOMP
+				// handshake, which message expiry does not cancel)
 				m.count("inflight_expired")
 				if t.Slot != nil {
 					for _, e := range t.Slot.Exp {
